@@ -41,38 +41,44 @@ theorem C02_lookahead (cx : Ctx) (i c : Nat) (nd : Node)
     simp only [run, nodeCall, hn, Option.map_eq_some_iff] at h
     obtain ⟨r0, h0, rfl⟩ := h
     simp only [bracket_st]
-    have hbody : ∀ aa mm st' r1, body cx (fun i a m env st => run cx n i a m env st) n nd.kind aa mm env st' = some r1 →
+    have hbody : ∀ aa mm ee st' r1, body cx (fun i a m env st => run cx n i a m env st) n nd.kind aa mm ee st' = some r1 →
         r1.st.cur = st'.cur := by
-      intro aa mm st' r1 h1
+      intro aa mm ee st' r1 h1
       rcases hk with hk | hk <;> rw [hk] at h1 <;>
         simp only [body, Option.map_eq_some_iff] at h1 <;> obtain ⟨r2, _, rfl⟩ := h1
       · rfl
       · simp only [alwaysRestore]; split <;> rfl
-    have hcore : ∀ aa st' r1, nodeCore cx (fun i a m env st => run cx n i a m env st) n i nd aa m env st' = some r1 →
+    have hcore : ∀ aa ee st' r1, nodeCore cx (fun i a m env st => run cx n i a m env st) n i nd aa m ee st' = some r1 →
         r1.st.cur = st'.cur := by
-      intro aa st' r1 h1
+      intro aa ee st' r1 h1
       unfold nodeCore at h1
       split at h1
-      · exact hbody _ _ _ _ h1
+      · exact hbody _ _ _ _ _ h1
       · simp only [Option.map_eq_some_iff] at h1
         obtain ⟨r2, h2, rfl⟩ := h1
-        exact guardRestore_cur_eq (by simpa using hbody _ _ _ _ h2)
+        exact guardRestore_cur_eq (by simpa using hbody _ _ _ _ _ h2)
     split at h0
-    · exact hcore _ _ _ h0
+    · exact hcore _ _ _ _ h0
     · exact ih _ _ _ _ _ h0
-    · exact hcore _ _ _ h0
-    · exact hcore _ _ _ h0
+    · exact hcore _ _ _ _ h0
+    · exact hcore _ _ _ _ h0
     · unfold limitDepthCall at h0
       split at h0
       · simp only [Option.some.injEq] at h0; subst h0; rfl
       · simp only [Option.map_eq_some_iff] at h0
         obtain ⟨r1, h1, rfl⟩ := h0
-        simpa using hcore _ _ _ h1
+        simpa using hcore _ _ _ _ h1
     · unfold limitBytesCall at h0
       simp only [Option.map_eq_some_iff] at h0
       obtain ⟨r1, h1, rfl⟩ := h0
-      have := hcore _ _ _ h1
+      have := hcore _ _ _ _ h1
       split <;> simpa using this
+    · simp only [Option.map_eq_some_iff] at h0
+      obtain ⟨r1, h1, rfl⟩ := h0
+      simpa using hcore _ _ _ _ h1
+    · simp only [Option.map_eq_some_iff] at h0
+      obtain ⟨r1, h1, rfl⟩ := h0
+      simpa using ih _ _ _ _ _ h1
 
 /-- Every atom's one-argument `match( in )` peeks before it bumps: a failing atom leaves the
     whole cursor unchanged (and no atom ever moves it backwards). -/
